@@ -11,6 +11,19 @@ def pSq : P (Nat × Mat) := do
   let e ← pMany pRat (n * n)
   pure (n, tab n fun i j => e.getD (i * n + j) 0)
 
+/-- The driver's rounding `rndK 256` is absolute (multiples of 2^-256) while the C++ rounds relatively; so the
+    driver first scales the matrix by the power of two of its largest entry (exact), runs the model and scales
+    the results back (`R`, eigenvalues by `p`; `Q`, reflectors unchanged): QR and the iteration are exactly
+    scale-equivariant, and matrices of any decade (1e-300 … 1e300) are then modelled to the same relative precision. -/
+def scalePow (n : Nat) (A : Mat) : Rat :=
+  let big := (List.range n).foldl (fun m i => (List.range n).foldl (fun m j => rmax m (rabs (get A i j))) m) 0
+  if big = 0 then 1
+  else
+    let e0 : Int := (Nat.log2 big.num.toNat : Int) - (Nat.log2 big.den : Int)
+    pow2 e0
+
+def scaled (n : Nat) (A : Mat) (p : Rat) : Mat := tab n fun i j => get A i j / p
+
 def showMat (n : Nat) (A : Mat) : String :=
   showRats ((List.range n).flatMap fun i => (List.range n).map fun j => get A i j)
 
@@ -30,18 +43,20 @@ def handle : Handler := fun op args =>
   match op with
   | "c15.householder" => withArgs pSq args fun (n, A) =>
       if n = 0 then "undef" else
-      match householder sqD rndD n A with
+      match householder sqD rndD n (scaled n A (scalePow n A)) with
       | some H => "ok " ++ showMat n H
       | none => "undef"
   | "c15.qr" => withArgs pSq args fun (n, A) =>
       if n = 0 then "undef" else
-      match qrDecomposition sqD rndD n A with
-      | some (Q, R) => "ok " ++ showMat n Q ++ " " ++ showMat n R
+      let p := scalePow n A
+      match qrDecomposition sqD rndD n (scaled n A p) with
+      | some (Q, R) => "ok " ++ showMat n Q ++ " " ++ showMat n (tab n fun i j => get R i j * p)
       | none => "undef"
   | "c15.spectrum" => withArgs pSq args fun (n, A) =>
       if n = 0 then "undef" else
-      match eigenvalues sqD rndD n A with
-      | .ok l steps => "ok " ++ toString l.length ++ " " ++ showRats l ++ " " ++ toString steps
+      let p := scalePow n A
+      match eigenvalues sqD rndD n (scaled n A p) with
+      | .ok l steps => "ok " ++ toString l.length ++ " " ++ showRats (l.map (· * p)) ++ " " ++ toString steps
       | .noconv => "err"
       | .nan => "undef"
   | "c15.eigensystem" => withArgs pSq args fun _ => "undef"
